@@ -5,11 +5,13 @@ From Coq Require Import List ZArith.
 From OVM Require Import Reg.RegistryModel Reg.RegistryProofs Reg.CopyProofs.
 Import ListNotations.
 
-(* ---- the copy equals the source: kernel state (entities, definitions, deletion flags, modes, incidences), equal-valued
+(* ---- the copy equals the source.
+   FULL STATEMENT (refuted, C13_copy_equal_refuted): as below without the hypothesis [pos_key_own].
+   PARTIAL (proved): kernel state (entities, definitions, deletion flags, modes, incidences), equal-valued
    persistent properties in the same order, nothing else carried over, all positions of the source copied; the source
    itself is unchanged.  [pos_key_own]: a persistent property of the source with the key of the position property
    (vertex, Vec3d, "ovm:position") is its position property. *)
-Theorem C13_copy_equal :
+Theorem C13_copy_equal_partial :
   forall w src rs w' m', reachable w -> get_mesh w src = Some rs -> pos_key_own w rs ->
   rstep w (CopyMesh src) = (w', RMesh m') ->
   get_mesh w' src = Some rs /\
@@ -20,7 +22,23 @@ Theorem C13_copy_equal :
     exists p sp a b, m_pos r' = Some p /\ m_pos rs = Some sp /\ get_st w' p = Some a /\ get_st w sp = Some b /\
                      firstn (length (s_data b)) (s_data a) = s_data b /\ s_owner a = Some m'.
 Proof. intros w src rs w' m' R. exact (copy_equal w src rs w' m' (reachable_inv w R)). Qed.
-Print Assumptions C13_copy_equal.
+Print Assumptions C13_copy_equal_partial.
+
+(* witness: add 2 vertices; clear() (anonymises the position property); add 2 vertices; create a persistent Vec3d vertex
+   property named "ovm:position" with default 9; copy: the copy's persistent property holds the positions (0 0), not (9 9) *)
+Definition f6_hist : list rop :=
+  [NewMesh; Kernel 0 (AddVertices 2); Kernel 0 (Clear true); Kernel 0 (AddVertices 2); CreatePersistent 0 KV TVec 1 9%Z].
+
+Theorem C13_copy_equal_refuted :
+  exists w' rs r', all_ok empty_world f6_hist /\
+    rstep (rrun f6_hist) (CopyMesh 0) = (w', RMesh 1) /\
+    get_mesh (rrun f6_hist) 0 = Some rs /\ get_mesh w' 1 = Some r' /\
+    map (oview w') (m_pers r') <> map (oview (rrun f6_hist)) (m_pers rs).
+Proof.
+  do 3 eexists. split; [vm_compute; tauto|]. split; [vm_compute; reflexivity|].
+  split; [vm_compute; reflexivity|]. split; [vm_compute; reflexivity|]. vm_compute. discriminate.
+Qed.
+Print Assumptions C13_copy_equal_refuted.
 
 (* ---- two meshes never reach a common storage (tracker set, persistent set, position handle), after ANY history: in
    particular right after a copy / assignment and after every later operation on either side *)
